@@ -170,7 +170,7 @@ def kani(P, u, prop):
     if partial:
         u.kani_harness.append("""
 #[kani::proof]
-pub fn pcmp_h() { let a = oracle::mk(&mut KaniSrc); let b = oracle::mk(&mut KaniSrc); let r = PartialOrd::partial_cmp(&a, &b); assert!(r == oracle::ord(&a, &b), "contract: partial_cmp(a, b) == oracle::ord(a, b)"); kani::cover!(true); }
+pub fn pcmp_h() { let a = oracle::mk(&mut KaniSrc); let b = oracle::mk(&mut KaniSrc); let r = PartialOrd::partial_cmp(&a, &b); assert!(r == oracle::ord(&a, &b), "contract: partial_cmp(a, b) == oracle::ord(a, b)"); let o9 = oracle::ord(&a, &b); assert!((a < b) == (o9 == Some(Ordering::Less)) && (a <= b) == matches!(o9, Some(Ordering::Less | Ordering::Equal)) && (a > b) == (o9 == Some(Ordering::Greater)) && (a >= b) == matches!(o9, Some(Ordering::Greater | Ordering::Equal)), "contract: <, <=, >, >= agree with partial_cmp"); kani::cover!(true); }
 #[kani::proof]
 pub fn pcmp_alias_h() { let a = oracle::mk(&mut KaniSrc); let r = PartialOrd::partial_cmp(&a, &a); assert!(r == oracle::ord(&a, &a), "contract: partial_cmp(a, a) through the same reference == oracle::ord(a, a)"); kani::cover!(true); }
 """)
@@ -189,11 +189,13 @@ pub fn pcmp_nb_h() {
 }
 """)
             u.kani_obls["pcmp_nb_h"] = ("%s/%s/PartialOrd::partial_cmp/neighbour-bytes" % (tagp, P.pid), "partial_cmp(&w1.e, &w2.e) == oracle::ord for all neighbour bytes")
-        u.kani_obls["pcmp_h"] = ("%s/%s/PartialOrd::partial_cmp/contract" % (tagp, P.pid), "partial_cmp(a, b) == oracle::ord(a, b)")
+        u.kani_obls["pcmp_h"] = ("%s/%s/PartialOrd::partial_cmp/contract" % (tagp, P.pid), "partial_cmp(a, b) == oracle::ord(a, b); <, <=, >, >= agree with it")
         u.replay.append('let a = oracle::mk(s); let b = oracle::mk(s);\n'
                         '    chk(out, "a.partial_cmp(&a)", PartialOrd::partial_cmp(&a, &a), oracle::ord(&a, &a));\n'
                         '    chk(out, "a.partial_cmp(&b)", PartialOrd::partial_cmp(&a, &b), oracle::ord(&a, &b));\n'
-                        '    chk(out, "a < b", a < b, oracle::ord(&a, &b) == Some(Ordering::Less));')
+                        '    chk(out, "a < b", a < b, oracle::ord(&a, &b) == Some(Ordering::Less));\n'
+                        '    chk(out, "a >= b", a >= b, matches!(oracle::ord(&a, &b), Some(Ordering::Greater | Ordering::Equal)));\n'
+                        '    chk(out, "a <= b", a <= b, matches!(oracle::ord(&a, &b), Some(Ordering::Less | Ordering::Equal)));')
     else:
         u.kani_harness.append("""
 #[kani::proof]
@@ -205,7 +207,7 @@ pub fn cmp_alias_h() { let a = oracle::mk(&mut KaniSrc); let r = Ord::cmp(&a, &a
         if md != "ord_only":
             u.kani_harness.append("""
 #[kani::proof]
-pub fn pcmp_h() { let a = oracle::mk(&mut KaniSrc); let b = oracle::mk(&mut KaniSrc); let r = PartialOrd::partial_cmp(&a, &b); assert!(r == Some(oracle::ord(&a, &b)), "contract: partial_cmp(a, b) == Some(oracle::ord(a, b))"); kani::cover!(true); }
+pub fn pcmp_h() { let a = oracle::mk(&mut KaniSrc); let b = oracle::mk(&mut KaniSrc); let r = PartialOrd::partial_cmp(&a, &b); assert!(r == Some(oracle::ord(&a, &b)), "contract: partial_cmp(a, b) == Some(oracle::ord(a, b))"); let o9 = Some(oracle::ord(&a, &b)); assert!((a < b) == (o9 == Some(Ordering::Less)) && (a <= b) == matches!(o9, Some(Ordering::Less | Ordering::Equal)) && (a > b) == (o9 == Some(Ordering::Greater)) && (a >= b) == matches!(o9, Some(Ordering::Greater | Ordering::Equal)), "contract: <, <=, >, >= agree with partial_cmp"); kani::cover!(true); }
 """)
         if P.tags.get("neighbours"):
             u.kani_harness.append("""
@@ -223,8 +225,10 @@ pub fn cmp_nb_h() {
             u.kani_obls["cmp_nb_h"] = ("%s/%s/Ord::cmp/neighbour-bytes" % (tagp, P.pid), "cmp(&w1.e, &w2.e) == oracle::ord for all neighbour bytes in a #[repr(C)] wrapper")
         u.kani_obls["cmp_h"] = ("%s/%s/Ord::cmp/contract" % (tagp, P.pid), "cmp(a, b) == oracle::ord(a, b)")
         if md != "ord_only":
-            u.kani_obls["pcmp_h"] = ("%s/%s/PartialOrd::partial_cmp/contract" % (tagp, P.pid), "partial_cmp(a, b) == Some(oracle::ord(a, b))")
+            u.kani_obls["pcmp_h"] = ("%s/%s/PartialOrd::partial_cmp/contract" % (tagp, P.pid), "partial_cmp(a, b) == Some(oracle::ord(a, b)); <, <=, >, >= agree with it")
         u.replay.append('let a = oracle::mk(s); let b = oracle::mk(s);\n'
                         '    chk(out, "a.cmp(&b)", Ord::cmp(&a, &b), oracle::ord(&a, &b));\n'
                         '    chk(out, "a.cmp(&a)", Ord::cmp(&a, &a), oracle::ord(&a, &a));' + ('' if md == "ord_only" else
-                        '\n    chk(out, "a.partial_cmp(&b)", PartialOrd::partial_cmp(&a, &b), Some(oracle::ord(&a, &b)));'))
+                        '\n    chk(out, "a.partial_cmp(&b)", PartialOrd::partial_cmp(&a, &b), Some(oracle::ord(&a, &b)));'
+                        '\n    chk(out, "a >= b", a >= b, oracle::ord(&a, &b) != Ordering::Less); chk(out, "a <= b", a <= b, oracle::ord(&a, &b) != Ordering::Greater);'
+                        '\n    chk(out, "a < b", a < b, oracle::ord(&a, &b) == Ordering::Less); chk(out, "a > b", a > b, oracle::ord(&a, &b) == Ordering::Greater);'))
